@@ -270,6 +270,51 @@ def run(ctx):
                 if not ok:
                     ctx.violation({'kind': 'scalar-operand-depends-on-value-dtype', 'op': name, 'dtype': np.dtype(dt).kind},
                                   {'values': arr.tolist(), 'other': other, 'error': err}, case=None)
+    # an operand is what it is NOW: used once, edited in place by its owner (a sample overwritten, its unit label corrected), used again
+    for _ in range(25):
+        w1, v1 = phys_spectrum(rng)
+        w2, v2 = phys_spectrum(rng)
+        u1, u2 = rng.choice((('nm', 'um'), ('um', 'nm'), ('nm', 'angstrom'), ('angstrom', 'um')))
+        a = make_real(lentil, w1, v1, u1)
+        b = make_real(lentil, w2, [float(x) for x in v2] and v2, u2)
+        b = lentil.radiometry.Spectrum(np.asarray(b.wave, dtype=float), np.asarray(b.value, dtype=float), waveunit=u2, valueunit=None)
+        op = rng.choice(('add', 'multiply'))
+        ctx.case(('operand-edited-between-uses', op, u1, u2, str(w1), str(w2)))
+        try:
+            getattr(a, op)(b)                                  # first use
+            edit = rng.choice(('value-in-place', 'waveunit-label')) if u2 in ('nm', 'angstrom') else 'value-in-place'
+            if edit == 'value-in-place':
+                b.value[len(b.value) // 2:] = 0.25
+            else:
+                b.waveunit = 'angstrom' if u2 == 'nm' else 'nm'          # (a factor 10: the common grid stays small)
+            fresh = lentil.radiometry.Spectrum(np.array(b.wave, copy=True), np.array(b.value, copy=True), waveunit=b.waveunit, valueunit=None)
+            r1, r2 = getattr(a, op)(b), getattr(a, op)(fresh)
+            ok = len(r1.wave) == len(r2.wave) and np.allclose(r1.wave, r2.wave, rtol=1e-12) and np.allclose(r1.value, r2.value, rtol=1e-12, atol=1e-14)
+            err = None
+        except Exception as ex:
+            ok, err, edit = False, repr(ex)[:160], 'raised'
+        if not ok:
+            ctx.violation({'kind': 'operand-used-as-it-was-earlier', 'op': op, 'edit': edit}, {'units': [u1, u2], 'error': err}, case=None)
+    # complex scalars and vectors are operands like any other: the imaginary part takes part in the operation
+    for _ in range(10):
+        w, v = phys_spectrum(rng)
+        s_ = make_real(lentil, w, v, 'nm')
+        vals_ = np.array([float(x) for x in v])
+        for name, other, expect in (('multiply', np.complex128(1 + 2j), vals_ * (1 + 2j)), ('multiply', np.complex64(2j), vals_ * 2j),
+                                    ('add', np.array([1j] * len(w)), vals_ + 1j), ('multiply', np.array(0.5 - 1j), vals_ * (0.5 - 1j))):
+            ctx.case(('complex-operand', name, str(other)[:12], str(w)))
+            import warnings as _w3
+            try:
+                with _w3.catch_warnings():
+                    _w3.simplefilter('ignore')
+                    r_ = getattr(s_, name)(other)
+                ok = np.allclose(np.asarray(r_.value), expect, rtol=1e-6)
+            except TypeError:
+                ok = True                                  # (an explicit refusal of complex operands is not a wrong value)
+            except Exception:
+                ok = False
+            if not ok:
+                ctx.violation({'kind': 'complex-operand-loses-its-imaginary-part', 'op': name}, {'operand': str(other)[:40]}, case=None)
     # operands written in DIFFERENT flux units (the same physical spectrum in photlam and in wlam / flam): the sum, the difference
     # and the quotient describe the same physical spectrum as with both operands in one unit, in either order (conversions: C14)
     nmix = 0
